@@ -27,10 +27,10 @@ from ..families import socalloc as fam
 GEN_MODULE = "socalloc/SocAlloc"
 TRACE_MODULE = "socalloc/SocAllocTrace"
 FAMILIES = ("bus", "loc", "plat")
-INVARIANTS = ["EnvLegal", "PairwiseDisjoint", "AlignedToDecodedSize", "InsideAddressSpace", "UncachedInsideIO",
+INVARIANTS = ["Verdicts", "EnvLegal", "PairwiseDisjoint", "AlignedToDecodedSize", "InsideAddressSpace", "UncachedInsideIO",
               "CachedOutsideIO", "DecoderExact", "NoAddressSelectsTwo", "LocUnique", "LocInRange", "NameUnique",
               "GrantCoversRequest", "ResourceGrantedOnce", "LookupOnlyMatched", "RejectedAtLatestAtFinalize"]
-BATCH_NODES = 60000
+BATCH_NODES = 40000
 NPROC = min(16, os.cpu_count() or 1)
 
 
@@ -43,28 +43,45 @@ def _tup(x):
 
 
 # ----------------------------------------------------------------------------- 1. history space
-def enumerate_histories(family, tier, timeout):
-    """-> (dict (sid, cfg) -> list of histories, TLC result).  Every value comes from TLC."""
-    cfg = 'INIT Init\nNEXT Next\nCHECK_DEADLOCK FALSE\nCONSTANT Family = "%s"\nCONSTANT Tier = "%s"\n' % (family, tier)
-    res = tlcmod.run(GEN_MODULE, cfg, workers=8, timeout=timeout, heap="12g")
+_SPACE_RE = re.compile(r'<<"(\w+)", (\d+), (\d+), (\d+), (\d+)>>')
+
+
+def enumerate_histories(family, tier, timeout, mode="x", num=0, seed=0):
+    """mode "x": TLC enumerates every history of the exhaustive scenarios (BFS);
+    mode "s": tlc -simulate draws `num` histories of the sampled scenarios with -seed.
+    -> (dict (sid, cfg) -> list of histories, TLC result, number of histories, space description).
+    Every value comes from TLC."""
+    cfg = ('INIT Init\nNEXT Next\nCHECK_DEADLOCK FALSE\nCONSTANT Family = "%s"\nCONSTANT Tier = "%s"\n'
+           'CONSTANT Mode = "%s"\n' % (family, tier, mode))
+    if mode == "x":
+        res = tlcmod.run(GEN_MODULE, cfg, workers=8, timeout=timeout, heap="12g")
+    else:
+        res = tlcmod.run(GEN_MODULE, cfg, workers=1, timeout=timeout, heap="4g", simulate="num=%d" % num,
+                         extra=("-seed", str(int(seed) + 1), "-depth", "16"))
     if not res.ok:
         raise MachineryError("TLC failed to enumerate the %s history space: %s\n%s"
                              % (family, " | ".join(res.errors[:5]), res.out[-1500:]))
-    groups = collections.defaultdict(list)
+    groups = collections.defaultdict(set)
     calls = {}
+    space = {}
     n = 0
     for line in res.out.splitlines():
+        if line.startswith('"<<\\"SPACE\\"'):
+            for sid, ncf, npre, nalpha, ln in _SPACE_RE.findall(json.loads(line)):
+                space[sid] = {"cfgs": int(ncf), "prefixes": int(npre), "alphabet": int(nalpha), "length": int(ln),
+                              "mode": "exhaustive" if mode == "x" else "sampled by tlc -simulate, seed %d" % (seed + 1)}
+            continue
         if not line.startswith('"<<\\"H\\"'):
             continue
         v = json.loads(json.loads(line).replace("<<", "[").replace(">>", "]"))
         if v[1] != family:
             raise MachineryError("history of another family in the output")
         h = tuple(calls.setdefault(c, c) for c in (_tup(c) for c in v[4]))
-        groups[(v[2], _tup(v[3]))].append(h)
+        groups[(v[2], _tup(v[3]))].add(h)
         n += 1
     if n == 0:
-        raise MachineryError("TLC printed no history for family %s" % family)
-    return groups, res, n
+        raise MachineryError("TLC printed no history for family %s mode %s" % (family, mode))
+    return groups, res, n, space
 
 
 # ----------------------------------------------------------------------------- 2. execution on the real code
@@ -108,7 +125,7 @@ def explore(family, root, hists, pool, decs):
                 for k, v in node.pop("_decs", ()):
                     decs[tuple(k)] = v
                 nodes[p] = node
-                if node["out"] == "ok" or not terminal:
+                if node["out"] != "HarnessHang" and (node["out"] == "ok" or not terminal):
                     alive.add(p)
         d += 1
         if d > maxlen:
@@ -200,20 +217,32 @@ _BAD_RE = re.compile(r'^<<"BAD", (\d+), \{(.*)\}>>$')
 _PAIR_RE = re.compile(r'<<"(\w+)", "(\w+)">>')
 
 
+def prepare(batch, scratch):
+    """write the batch to disk and drop the document (keeps memory flat in the thorough tier)"""
+    fd, path = tempfile.mkstemp(prefix="nodes-", suffix=".json", dir=scratch)
+    with os.fdopen(fd, "w") as f:
+        json.dump(batch["doc"], f, separators=(",", ":"))
+    batch["path"] = path
+    batch["nn"] = len(batch["doc"]["nodes"])
+    batch["doc"] = None
+    return batch
+
+
 def judge(batch, timeout=1800, workers=4):
-    """one TLC run over one batch.  -> dict node index (1-based) -> set of (clause, class), stats"""
+    """one TLC run over one prepared batch.  -> dict node index (1-based) -> set of (clause, class), stats"""
     scratch = _scratch()
     try:
-        path = os.path.join(scratch, "nodes.json")
-        with open(path, "w") as f:
-            json.dump(batch["doc"], f, separators=(",", ":"))
+        path = batch["path"]
         cfg = "INIT Init\nNEXT Next\nCHECK_DEADLOCK FALSE\n" + "".join("INVARIANT %s\n" % i for i in INVARIANTS)
-        res = tlcmod.run(TRACE_MODULE, cfg, env={"TRACES": path}, timeout=timeout, scratch=scratch, workers=workers,
-                         extra=("-continue",), heap="8g")
+        for attempt in range(3):
+            res = tlcmod.run(TRACE_MODULE, cfg, env={"TRACES": path}, timeout=timeout, scratch=scratch, workers=workers,
+                             extra=("-continue",), heap="8g")
+            if res.rc not in (143, 137, 130, -15, -9) or any("timeout" in e for e in res.errors):
+                break               # 143/137: the JVM was killed from outside (shared machine): run it again
         if res.errors:
             raise MachineryError("TLC failed while judging recorded histories: " + " | ".join(res.errors[:6])
                                  + "\n" + res.out[-2000:])
-        nn = len(batch["doc"]["nodes"])
+        nn = batch["nn"]
         if res.distinct != nn:
             raise MachineryError("the judge visited %d nodes, %d were recorded" % (res.distinct, nn))
         bad = {}
@@ -241,6 +270,10 @@ def judge(batch, timeout=1800, workers=4):
         return bad, {"states": res.distinct, "transitions": res.generated, "wall": res.wall}
     finally:
         shutil.rmtree(scratch, ignore_errors=True)
+        try:
+            os.unlink(batch["path"])
+        except OSError:
+            pass
 
 
 # ----------------------------------------------------------------------------- verdicts
@@ -275,13 +308,12 @@ class Collector:
     def add(self, family, batch, bad):
         for i, pairs in bad.items():
             meta = batch["meta"][i - 1]
-            node = batch["doc"]["nodes"][i - 1]
             for clause, cls in pairs:
                 g = self.groups.setdefault((family, clause, cls), {"count": 0, "example": None})
                 g["count"] += 1
                 key = (len(meta[1]), repr(meta))
                 if g["example"] is None or key < g["example"][0]:
-                    g["example"] = (key, meta, node)
+                    g["example"] = (key, meta)
 
 
 def _witness(family, nodes, w):
@@ -327,18 +359,32 @@ def run(prop, report, tier, seed):
     per_scenario = {}
     ctx = multiprocessing.get_context("fork")
     pool = ctx.Pool(NPROC) if NPROC > 1 else None
-    judge_pool = ThreadPoolExecutor(max_workers=3 if tier == "thorough" else 2)
+    judge_pool = ThreadPoolExecutor(max_workers=3)
     futures = []
     nhist = 0
+    scratch = _scratch()
     try:
-        with ThreadPoolExecutor(max_workers=3) as ex:
-            gens = {f: ex.submit(enumerate_histories, f, tier, gen_timeout) for f in FAMILIES}
-            gens = {f: g.result() for f, g in gens.items()}
+        nsample = {"bus": 3000, "loc": 1500, "plat": 1500}
+        if tier == "thorough":
+            nsample = {k: 10 * v for k, v in nsample.items()}
+        with ThreadPoolExecutor(max_workers=6) as ex:
+            gx = {f: ex.submit(enumerate_histories, f, tier, gen_timeout) for f in FAMILIES}
+            gs = {f: ex.submit(enumerate_histories, f, tier, gen_timeout, "s", nsample[f], seed) for f in FAMILIES}
+            gx = {f: g.result() for f, g in gx.items()}
+            gs = {f: g.result() for f, g in gs.items()}
+        t_gen = time.time() - t0
         for family in FAMILIES:
-            groups, res, n = gens[family]
-            nhist += n
-            report.add(history_space={family: {"histories_enumerated_by_tlc": n, "tlc_states": res.distinct,
-                                               "tlc_wall_s": round(res.wall, 1)}})
+            groups, res, n, space = gx[family]
+            sgroups, sres, sn, sspace = gs[family]
+            groups = dict(groups)
+            groups.update(sgroups)
+            for sid, sp in sspace.items():
+                sp["histories_drawn"] = sum(len(v) for k, v in sgroups.items() if k[0] == sid)
+            space.update(sspace)
+            nhist += n + sn
+            report.add(history_space={family: {"histories_enumerated_by_tlc": n, "histories_sampled_by_tlc": sn,
+                                               "tlc_states": res.distinct, "tlc_wall_s": round(res.wall + sres.wall, 1),
+                                               "scenarios": space}})
             decs = {}
             pending, psize = [], 0
             for root in sorted(groups, key=repr):
@@ -363,23 +409,25 @@ def run(prop, report, tier, seed):
                 psize += len(nodes)
                 if psize >= BATCH_NODES:
                     for b in make_batches(family, pending, decs):
-                        futures.append((family, b, judge_pool.submit(judge, b)))
+                        futures.append((family, b, judge_pool.submit(judge, prepare(b, scratch))))
                     pending, psize = [], 0
             if pending:
                 for b in make_batches(family, pending, decs):
-                    futures.append((family, b, judge_pool.submit(judge, b)))
+                    futures.append((family, b, judge_pool.submit(judge, prepare(b, scratch))))
             report.add(decoder_facts={family: len(decs)})
+        t_exec = time.time() - t0 - t_gen
         for family, b, fut in futures:
             bad, st = fut.result()
             report.add(states=st["states"], transitions=st["transitions"], judge_runs=1)
             coll.add(family, b, bad)
-            b["doc"] = None
+            b["meta"] = None
     finally:
         if pool is not None:
             pool.terminate()
+        shutil.rmtree(scratch, ignore_errors=True)
         judge_pool.shutdown(wait=False, cancel_futures=True)
         fam.quiet(False)
-    report.add(scenarios=per_scenario, witnesses=dict(witness), clauses=INVARIANTS[1:],
+    report.add(scenarios=per_scenario, witnesses=dict(witness), clauses=INVARIANTS[2:],
                histories_enumerated=nhist)
     for family in FAMILIES:
         for wname in REQUIRED_WITNESSES[family]:
@@ -387,7 +435,9 @@ def run(prop, report, tier, seed):
                 raise MachineryError("vacuity: witness %s is zero (the histories never exercised it)" % wname)
     # verdicts: one per (family, clause, class), the shortest history as replay
     for (family, clause, cls), g in sorted(coll.groups.items()):
-        _, meta, node = g["example"]
+        _, meta = g["example"]
+        node = fam.visit((family, meta[0][1], meta[1]))        # the example, performed once more on the real code
+        node.pop("_decs", None)
         hist = _history_of(family, meta)
         sig = {"family": family, "clause": clause, "class": cls}
         text = "%s/%s violated (%d recorded prefixes) e.g. [%s] %s -> %s" % (
@@ -397,9 +447,16 @@ def run(prop, report, tier, seed):
         replay = dict(hist)
         replay.update({"clause": clause, "class": cls, "trace_module": TRACE_MODULE, "count": g["count"]})
         report.violation(sig, replay, text)
+    fam.quiet(False)
+    hangs = sum(v for k, v in witness.items() if k.endswith(".out.HarnessHang"))
+    if hangs:
+        report.note("%d calls into LiteX did not return within %.0f s and were interrupted" % (hangs, fam.CALL_TIMEOUT))
+        if not report.violations:
+            raise MachineryError("%d calls did not return (allocator looping?): the check cannot decide" % hangs)
     report.add(violation_classes={"%s/%s/%s" % k: v["count"] for k, v in coll.groups.items()})
     report.cov["exhaustive"] = True
-    report.add(wall_total_s=round(time.time() - t0, 1))
+    report.add(wall_total_s=round(time.time() - t0, 1), wall_enumerate_s=round(t_gen, 1),
+               wall_execute_on_real_code_s=round(t_exec, 1))
 
 
 # ----------------------------------------------------------------------------- replay
@@ -418,7 +475,11 @@ def replay(path):
     nodes = explore(family, root, [hist], None, decs)
     fam.quiet(False)
     batches = make_batches(family, [(root, nodes)], decs)
-    bad, _ = judge(batches[0], timeout=300, workers=2)
+    scratch = _scratch()
+    try:
+        bad, _ = judge(prepare(batches[0], scratch), timeout=300, workers=2)
+    finally:
+        shutil.rmtree(scratch, ignore_errors=True)
     fails = []
     hit = False
     for i, pairs in sorted(bad.items()):
